@@ -77,14 +77,28 @@ def _aliases(body, start_local):
     return al
 
 
-def acquisitions(body):
+def acquisitions(body, prog=None, _depth=0):
     out = []
     for bi, t in body.calls():
         d = callee_decl(t)
         if d not in LOCK_FNS:
-            continue
-        ids = lock_id_of(body, t['args'][0])
-        a = Acq(body, bi, ids, LOCK_FNS[d])
+            # a wrapper that returns the guard it took (`fn acquire_dbs_read_lock(&self) -> RwLockReadGuard<..>`): the lock is held
+            # by the caller from the call on, exactly as if it had called read()/write()/lock() itself
+            if prog is None or _depth > 2 or t['f'].get('ind'):
+                continue
+            cb = prog.bodies.get(callee(t))
+            if cb is None or 'Guard<' not in cb.locals[0] or not cb.locals[0].startswith('std::sync::'):
+                continue
+            inner = [x for x in acquisitions(cb, prog, _depth + 1) if x.returned]
+            if not inner:
+                continue
+            ids = set()
+            for x in inner:
+                ids |= set(x.ids)
+            a = Acq(body, bi, ids, inner[0].mode)
+        else:
+            ids = lock_id_of(body, t['args'][0])
+            a = Acq(body, bi, ids, LOCK_FNS[d])
         if t['d'].get('p') or t['t'] is None:
             out.append(a)
             continue
@@ -153,7 +167,7 @@ class LockModel:
     def acq(self, body):
         r = self._acq.get(body.id)
         if r is None:
-            r = acquisitions(body)
+            r = acquisitions(body, self.prog)
             self._acq[body.id] = r
         return r
 
